@@ -144,6 +144,10 @@ Records ==
     Rec("x.Outer", <<Field("i", RecNs("Inner", "", <<Field("l", Fixed("Leaf", 1)), Field("r", S("Leaf"))>>))>>),
     Rec("x.Outer", <<Field("i", Rec(".Inner", <<Field("l", Enum("Leaf", <<"A">>)), Field("m", Arr(S("Leaf")))>>)), Field("o", Fixed("G", 1))>>),
     RecNs("Outer", "x.y", <<Field("i", RecNs("Inner", "", <<Field("j", Rec("Deep", <<Field("k", Fixed("Leaf", 2))>>))>>))>>),
+    \* two named types with the SAME simple name in different namespaces, each defined once and referred to afterwards
+    Rec("bank.R", <<Field("a", Enum("bank.source.Kind", <<"A">>)), Field("b", Enum("bank.target.Kind", <<"B", "C">>)),
+                    Field("c", S("bank.source.Kind")), Field("d", Arr(S("bank.target.Kind"))),
+                    Field("e", Fixed("misc.Kind", 2)), Field("f", JArr(<<S("null"), S("misc.Kind")>>))>>),
     \* custom attributes whose names the implementation's whitelist happens to contain
     JObj(<<T("record"), Nm("R"), <<"fields", JArr(<<>>)>>, <<"precision", JInt(5)>>, <<"order", S("zz")>>>>),
     JObj(<<T("enum"), Nm("E"), <<"symbols", JArr(<<S("A")>>)>>, <<"scale", JInt(1)>>, <<"default", S("A")>>>>),
